@@ -1,8 +1,10 @@
 mod common;
 mod fixture;
 mod queries;
+mod hops;
 mod sched;
 mod c01;
+mod c02;
 mod c04;
 mod c05;
 mod c06;
@@ -52,6 +54,7 @@ fn main() {
             0
         }
         "c01" => c01::run(opts),
+        "c02" => c02::run(opts),
         "c04" => c04::run(opts),
         "c05" => c05::run(opts),
         "c05-worker" => c05::worker(&args[1..]),
